@@ -35,7 +35,11 @@ impl Session {
             return Ok(());
         }
         self.logger.log_commit()?;
+        #[cfg(feature = "verif")]
+        crate::verif::sched::yield_point("commit_logged");
         self.ctx.commit_transaction()?;
+        #[cfg(feature = "verif")]
+        crate::verif::sched::yield_point("committed");
         self.logger.log_end()?;
         self.finished = true;
         Ok(())
